@@ -289,6 +289,10 @@ func pools(quick bool) []poolDef {
 	} else {
 		ps = append(ps, poolDef{name: "deep", patterns: deep, paths: rsx.GenPaths([]string{"a", "b"}, 3), hosts: []string{""}, k: 3})
 	}
+	// mid2: a static route, its parameter twin and a prefixed wildcard below the twin (several
+	// remove-slash / add-slash candidates met while backtracking; the first one must win)
+	mid2 := []string{"/a/b", "/a/b/", "/{p0}/b", "/{p0}/b/", "/{p0}/b{p1}", "/{p0}/b{p1}/", "/a/b{p1}", "/a/{p1}", "/{p0}/{p1}", "/{p0}/b*{c1}"}
+	ps = append(ps, poolDef{name: "mid2", patterns: mid2, paths: rsx.GenPaths([]string{"a", "b", "bb"}, 2), hosts: []string{""}, k: 3})
 	if !quick {
 		core := append([]string{"/"}, rsx.GenPatterns([]string{"a", "{}", "*{}"}, 2, true, "")...)
 		ps = append(ps, poolDef{"core4", core, rsx.GenPaths([]string{"a", "b"}, 3), []string{""}, 4, nil, rsx.Profile{}})
